@@ -366,6 +366,8 @@ def model_dontcare(case):
     if case["kind"] == "write":
         return _write_dontcare(case)
     if case["kind"] == "field":
+        if "raw" in case:
+            return True          # a non-text value handed to build(): the model's build takes text
         return field_dontcare(descr_of_spec(case["cls"]), case["text"])
     cols = SP.layout(case["annot"])["columns"]
     if len(cols) != len(case["fields"]):
@@ -484,7 +486,7 @@ def _run_parse(case, held):
     if case["kind"] == "field":
         cls = H.cls_of_spec(case["cls"])
         try:
-            col = cls.build("k", case["text"])
+            col = cls.build("k", H.dec_value(case["raw"]) if "raw" in case else case["text"])
         except MafFormatException as e:
             return {"cmp": {"build": ["raise", 10, list(MafValidationErrorType).index(e.tpe), e.line_number]}}
         except Exception as e:
